@@ -332,12 +332,12 @@ func c16Cases(tier string) int {
 	if tier == "thorough" {
 		return n + 100000 + 100000
 	}
-	return n + 3000 + 2000
+	return n + 10000 + 6000
 }
 
 func c16Run(c *Case) {
 	nm := len(c16Methods) + 3
-	ns := 3000
+	ns := 10000
 	if c.Tier == "thorough" {
 		ns = 100000
 	}
